@@ -169,8 +169,9 @@ func init() { vndRegister("VerifC09RecordMerges", VerifC09RecordMerges) }
 // in apply order; no data race between the merges.
 func VerifC09RecordMerges() {
 	c := NewCollection(Options{Capacity: vndParam("cap")})
+	// the merge function is not the identity on an empty value: merge(v, d) = v + "|" + d
 	c.CreateColumn("r", ForRecord(func() *vRec { return new(vRec) }, WithMerge(func(v, d *vRec) *vRec {
-		v.b = append(v.b, d.b...)
+		v.b = append(append(v.b, '|'), d.b...)
 		return v
 	})))
 	rows := [2]uint32{16383, 16384}
@@ -219,12 +220,25 @@ func VerifC09RecordMerges() {
 		}
 		return nil
 	})
-	vndAssert(got[1] == init[1]+d[1], "record of block 1 is not its initial value merged with its delta")
+	vndAssert(got[1] == init[1]+"|"+d[1], "record of block 1 is not its initial value merged with its delta")
 	if N < 3 {
-		vndAssert(got[0] == init[0]+d[0], "record of block 0 is not its initial value merged with its delta")
+		vndAssert(got[0] == init[0]+"|"+d[0], "record of block 0 is not its initial value merged with its delta")
 	} else {
-		vndAssert(got[0] == init[0]+d[0]+d[2] || got[0] == init[0]+d[2]+d[0], "record of block 0 is not its initial value merged with both deltas in some order")
+		vndAssert(got[0] == init[0]+"|"+d[0]+"|"+d[2] || got[0] == init[0]+"|"+d[2]+"|"+d[0], "record of block 0 is not its initial value merged with both deltas in some order")
 	}
+	// a row that holds no record yet: the first merge still goes through the merge function
+	fresh, _ := c.Insert(func(Row) error { return nil })
+	df := vndString("delta", L)
+	c.Query(func(txn *Txn) error {
+		return txn.QueryAt(fresh, func(Row) error { return txn.Record("r").Merge(&vRec{b: []byte(df)}) })
+	})
+	c.Query(func(txn *Txn) error {
+		return txn.QueryAt(fresh, func(Row) error {
+			v, ok := txn.Record("r").Get()
+			vndAssert(ok && string(v.(*vRec).b) == "|"+df, "a merge into a row without a value did not go through the merge function")
+			return nil
+		})
+	})
 	vndObserveStr("r0", got[0])
 	vndObserveStr("r1", got[1])
 }
